@@ -352,8 +352,14 @@ impl Ctx {
             }
             "IntoThin" => {
                 if let Some(H::Fat(a)) = self.take(s) {
+                    let w0 = crate::trace::COUNT_WRITES.load(Ordering::Relaxed);
                     if let Some(t) = self.call(move || Arc::into_thin(a)) {
                         self.put(s, H::Thin(t));
+                        // a refused conversion releases its argument; an accepted one is a pointer cast
+                        let w = crate::trace::COUNT_WRITES.load(Ordering::Relaxed) - w0;
+                        if w != 0 {
+                            bad!(self, "[touch] IntoThin performed {} modifying operation(s) on a reference count; thin <-> fat conversions do not touch the count", w);
+                        }
                     }
                 } else {
                     bad!(self, "[harness] IntoThin on wrong kind");
@@ -362,6 +368,7 @@ impl Ctx {
             "FromThin" | "ProtFromThin" | "ProtIntoThin" | "ThinIntoRaw" | "ThinFromRaw" | "ThinIntoPtr" | "ThinFromPtr" => {
                 if let Some(h) = self.take(s) {
                     let name = op.name.clone();
+                    let w0 = crate::trace::COUNT_WRITES.load(Ordering::Relaxed);
                     let n = self.call(move || unsafe {
                         match (name.as_str(), h) {
                             ("FromThin", H::Thin(t)) => H::Fat(Arc::from_thin(t)),
@@ -379,6 +386,10 @@ impl Ctx {
                     });
                     if let Some(n) = n {
                         self.put(s, n);
+                    }
+                    let w = crate::trace::COUNT_WRITES.load(Ordering::Relaxed) - w0;
+                    if w != 0 {
+                        bad!(self, "[touch] {} performed {} modifying operation(s) on a reference count; thin <-> fat / raw conversions do not touch the count", op.name, w);
                     }
                 }
             }
